@@ -73,7 +73,10 @@ func (e *Engine) globalIndex(g *ssa.Global) int {
 }
 
 func (e *Engine) typeTag(t types.Type) int {
-	k := types.TypeString(t, nil)
+	return e.typeTagNamed(types.TypeString(t, nil))
+}
+
+func (e *Engine) typeTagNamed(k string) int {
 	if i, ok := e.typeTags[k]; ok {
 		return i
 	}
